@@ -104,7 +104,11 @@ def seeded_sam(n: int, seed: int) -> dict:
     singles = [rng.randint(0, 24) for _ in range(n)]
     pos = [rng.randint(0, 4) for _ in range(1 << n)]
     v = build_sam(n, singles, pos)
-    return {"n": n, "cls": "int", "v": [float(x) for x in v], "how": f"seeded-sam({seed})"}
+    cls = "int"
+    if rng.random() < 0.34:
+        v = scale_game(v, rng.randint(1, 6))
+        cls = "dyadic"
+    return {"n": n, "cls": cls, "v": [float(x) for x in v], "how": f"seeded-sam({seed})"}
 
 
 def seeded_knowledge(n: int, seed: int) -> list[int]:
@@ -193,7 +197,12 @@ def sam_games(draw, min_n: int = 3, max_n: int = 5, explicit_up_to: int = 5):
     else:
         f = draw(_subadditive_fn(n, kind))
         v = [-x for x in f]
-    return {"n": n, "cls": "int", "v": [float(x) for x in v], "how": "sam-" + kind}
+    cls = "int"
+    if draw(st.integers(0, 2)) == 0:
+        # non-integer but exactly representable values (halves, quarters ...): still SAM, every comparison still exact
+        v = scale_game(v, draw(st.integers(1, 6)))
+        cls = "dyadic"
+    return {"n": n, "cls": cls, "v": [float(x) for x in v], "how": "sam-" + kind}
 
 
 @st.composite
